@@ -54,6 +54,17 @@ theorem go_reader_matches_schema :
     schema.vlqMaxGroups = goReaderVlqMaxGroups :=
   go_reader_matches
 
+/-- FINDING (outside the property's quantifier "record lists x compression types", inside its wording "every
+file written by the current writer"): a writer opened with `recordio.DirectIO()` pads the file with zero
+bytes up to the block size.  The native reader reads a zero tail as end-of-file (`C04.zero_tail_is_eof`);
+the schema has no such rule, so the Kaitai reader fails on EVERY padded file: `magic` (contents mismatch)
+for 3 or more padding bytes, `unexpected EOF` for 1 or 2. -/
+theorem kaitai_rejects_zero_padding (c : Compression) (ct : Nat) (rs : List GoBytes) (k : Nat)
+    (hct : ct < 2 ^ 32) (hm : ct = 0 ↔ c = none) (hf : ∀ r ∈ rs, KFitsRec c r) :
+    kaitaiParse schema (fileHeader currentVersion ct ++ encAll c rs ++ List.replicate (k + 1) 0)
+      = .error (if k + 1 < 3 then .unexpectedEof else .magic) :=
+  kaitai_rejects_padding c currentVersion ct rs k (by decide) hct hm hf
+
 /-- Sharpness of the size hypothesis: the length 2^56 is written by the writer as 9 varint bytes; the
 Kaitai vlq reader consumes all 9 but its `value` is 0 (a record of ≥ 64 PiB cannot exist, so this is a
 remark about the schema, not a reachable defect). -/
